@@ -43,7 +43,7 @@ def correspond(ctx):
         if rc2 != 0 or not m:
             c.mismatches.append({"kind": "coq-eval", "shard": nm, "output": o[-1200:]}); continue
         if m.group(1).strip() != "[]":
-            idx = [int(a) for a, _ in re.findall(r"\((\d+)(?:%nat)?,\s*(\d+)(?:%nat)?\)", m.group(1))]
+            idx = [int(a) for a, _ in re.findall(r"\(\s*(\d+)(?:%nat)?\s*,\s*(\d+)(?:%nat)?\s*\)", m.group(1))]
             c.mismatches.append({"kind": "gw-field-capacity", "cases": [cases[i]["in"] for i in idx[:5]] or o[-600:]})
     c.cases += len(recs)
     c.nontrivial += len(set((x["in"]["grw"], tuple(x["in"]["w"])) for x in cases))
